@@ -67,9 +67,10 @@ package scheduler
 
 // A new request is either answered at once or registered as the last waiter of its control.
 //@ func newTorrentEvent.apply
-//@   requires s != nil && s.torrentControls != nil
-//@   requires forall k core.InfoHash :: k in s.torrentControls ==> s.torrentControls[k] != nil && allocated(s.torrentControls[k])
+//@   requires s != nil && s.torrentControls != nil && s.sched != nil && s.sched.torrentArchive != nil
+//@   requires forall k core.InfoHash :: k in s.torrentControls ==> s.torrentControls[k] != nil && allocated(s.torrentControls[k]) && s.torrentControls[k].dispatcher != nil
 //@   modifies *
+//@   assert drops_completed_control_only_if_evicted: at state.removeTorrent#0 :: !(ctrl.dispatcher.name in s.sched.torrentArchive.ondisk)
 //@   ensures answered_or_registered: sent(e.errc) >= old(sent(e.errc)) + 1 || (ctrl != nil && len(ctrl.errors) >= 1 && ctrl.errors[len(ctrl.errors) - 1] == e.errc)
 
 // ---- the scheduler's use of the announce queue (property C20) -------------------------------------------
@@ -110,3 +111,12 @@ package scheduler
 //@   loop 0 invariant cdistinct: cdistinct(s.conns)
 //@   loop 0 invariant blok: blok(s.conns)
 //@   loop 0 invariant peers: forall j int :: 0 <= j && j < len(e.peers) ==> e.peers[j] != nil && allocated(e.peers[j])
+
+// ---- C18: a completed control is replaced only when its blob is gone from disk -------------------
+// A new download request whose torrent handle reports "incomplete" while the scheduler's control
+// for the same torrent is complete is either a stale handle (created before the download finished)
+// or the sign of an evicted cache file. The control of a completed blob is dropped - and replaced
+// by a leeching one, whose idle timeout deletes the blob's file - only if the archive, asked at
+// that moment, does not report the blob as complete on disk.
+// (the call-site rule drops_completed_control_only_if_evicted is part of the contract of
+// newTorrentEvent.apply above)
